@@ -464,6 +464,7 @@ fn fs_radix() -> u64 {
         + 3                             // nested block with two stateful lets / dsp self / block shadowing a name
         + 3                             // assignments whose right-hand side is a stateful call (plain, mem, under if)
         + 3                             // a delay written directly in an if arm (taken on some samples only)
+        + 1                             // a block that starts with an expression statement and then shadows a name
 }
 pub fn fs_count(k: u32) -> u64 {
     seq_count(fs_radix(), k)
@@ -631,6 +632,19 @@ fn fs_stmt(c: &mut Ctx, mut o: u64) -> Option<()> {
             c.ops.push(what.into());
             c.stmts.push(let_(&v, e));
             c.vars.push(v);
+        }
+        9 => {
+            // like the shadowing block below, but the block's first statement is not a binding (shadows the most recent
+            // name, or dsp's parameter if there is none yet)
+            let last = c.vars.last().cloned().unwrap_or_else(|| DSP_IN.to_string());
+            let v = c.fresh();
+            let e = E::Block(vec![S::Expr(bin("+", var(&last), num(0.0))), let_(&last, bin("+", var(&last), num(5.0)))], Some(Box::new(bin("*", var(&last), num(2.0)))));
+            c.ops.push(format!("block starting with an expression statement, then shadowing {last}"));
+            c.stmts.push(let_(&v, e));
+            let w = c.fresh();
+            c.stmts.push(let_(&w, bin("+", var(&last), num(0.25))));
+            c.vars.push(v);
+            c.vars.push(w);
         }
         _ => {
             // an inner block rebinds the most recent name; the outer binding must be unaffected afterwards
